@@ -1,6 +1,8 @@
 package core
 
 import (
+	"reflect"
+	"strings"
 	"time"
 )
 
@@ -16,6 +18,13 @@ func compare(a interface{}, b interface{}) int {
 			return 1
 		}
 		return 0
+	}
+
+	typeOfA, typeOfB := reflect.TypeOf(a), reflect.TypeOf(b)
+	if typeOfA != typeOfB {
+		// A dimension may hold values of different types in different rows. These
+		// can't be compared by value, so order them by type.
+		return strings.Compare(typeOfA.String(), typeOfB.String())
 	}
 
 	switch ta := a.(type) {
@@ -60,7 +69,7 @@ func compare(a interface{}, b interface{}) int {
 			return -1
 		}
 	case uint:
-		tvb := uint(b.(uint64))
+		tvb := b.(uint)
 		if ta > tvb {
 			return 1
 		}
